@@ -82,9 +82,9 @@ pub fn ops_for_len(len: i64) -> Vec<COp> {
         out.push(Drain { v, r, front: 0, back: 0, forget: false });
         out.push(Drain { v, r, front: 1, back: 1, forget: false });
         out.push(Drain { v, r, front: 1, back: 0, forget: true });
-        out.push(Splice { v, r, vals: vec![], take: 0 });
-        out.push(Splice { v, r, vals: vec![11], take: 1 });
-        out.push(Splice { v, r, vals: vec![11, 12, 13], take: 0 });
+        out.push(Splice { v, r, vals: vec![], take: 0, inexact: false });
+        out.push(Splice { v, r, vals: vec![11], take: 1, inexact: true });
+        out.push(Splice { v, r, vals: vec![11, 12, 13], take: 0, inexact: true });
     }
     for f in 0..=2usize {
         for b in 0..=2usize {
@@ -138,7 +138,7 @@ pub fn small_alphabet(len: i64) -> Vec<COp> {
         Drain { v, r: rg(1, 1, 2, len), front: 1, back: 0, forget: false },
         Drain { v, r: rg(0, 0, 1, -1), front: 0, back: 0, forget: false },
         Drain { v, r: rg(0, 0, 0, 0), front: 0, back: 1, forget: true },
-        Splice { v, r: rg(1, 1, 2, 2), vals: vec![11, 12], take: 0 },
+        Splice { v, r: rg(1, 1, 2, 2), vals: vec![11, 12], take: 0, inexact: false },
         Retain { v, m: 2 },
         DrainFilter { v, m: 2, take: 1 },
         Dedup { v },
@@ -147,8 +147,8 @@ pub fn small_alphabet(len: i64) -> Vec<COp> {
         Reserve { v, n: 10, exact: false, fallible: false },
         Reserve { v, n: 2, exact: true, fallible: false },
         Reserve { v, n: 1, exact: true, fallible: true },
-        Splice { v, r: rg(1, 1, 2, 2), vals: vec![11, 12, 13, 14], take: 0 },
-        Splice { v, r: rg(1, 0, 2, 1), vals: vec![21, 22, 23], take: 1 },
+        Splice { v, r: rg(1, 1, 2, 2), vals: vec![11, 12, 13, 14], take: 0, inexact: true },
+        Splice { v, r: rg(1, 0, 2, 1), vals: vec![21, 22, 23], take: 1, inexact: false },
         Canary { size: 16 },
         ShrinkToFit { v },
         CloneVec { v, w: 1 },
@@ -223,8 +223,8 @@ pub fn panics(maxlen: i64) -> Vec<CProgram> {
             Extend { v, vals: vec![5, 6, 7] },
             ExtendFromSlice { v, vals: vec![8, 8, 9] },
             CloneVec { v, w: 1 },
-            Splice { v, r: rg(1, 0, 2, 1), vals: vec![11, 12, 13], take: 0 },
-            Splice { v, r: rg(0, 0, 0, 0), vals: vec![11], take: 1 },
+            Splice { v, r: rg(1, 0, 2, 1), vals: vec![11, 12, 13], take: 0, inexact: true },
+            Splice { v, r: rg(0, 0, 0, 0), vals: vec![11], take: 1, inexact: false },
             FromIter { v: 2, vals: vec![1, 2, 3] },
             Truncate { v, n: 0 },
             Truncate { v, n: 1 },
@@ -302,6 +302,40 @@ fn swap_vec(op: COp) -> COp {
     serde_json::from_value(j).unwrap_or(op)
 }
 
+/// growth policy (C18): a buffer with capacity c holding few elements is extended past c in one call
+pub fn growth() -> Vec<CProgram> {
+    use COp::*;
+    let v = 0;
+    let mut out = Vec::new();
+    for c in [4i64, 8, 16, 33] {
+        for keep in [0i64, 1, c / 2 - 1, c / 2, c - 1] {
+            for extra in [1i64, 2, c / 2, c] {
+                let k = (c - keep + extra) as usize; // exceeds the capacity by `extra`
+                let vals: Vec<i64> = (0..k as i64).collect();
+                let fill: Vec<i64> = (0..c).collect();
+                for how in 0..5 {
+                    let mut ops = vec![NewVec { v, cap: c }, Extend { v, vals: fill.clone() }, Truncate { v, n: keep }];
+                    ops.push(match how {
+                        0 => Extend { v, vals: vals.clone() },
+                        1 => ExtendFromSlice { v, vals: vals.clone() },
+                        2 => Reserve { v, n: k as i64, exact: false, fallible: false },
+                        3 => Reserve { v, n: k as i64, exact: false, fallible: true },
+                        _ => Resize { v, n: keep + k as i64, val: 7 },
+                    });
+                    ops.push(Push { v, val: 1 });
+                    // clear-and-refill rounds: the number of moves must stay logarithmic
+                    for round in 0..6i64 {
+                        ops.push(Clear { v });
+                        ops.push(Extend { v, vals: (0..(c + extra + round)).collect() });
+                    }
+                    out.push(CProgram { ops, tag: "growth".into() });
+                }
+            }
+        }
+    }
+    out
+}
+
 pub fn by_name(name: &str, tier: &str, seed: u64) -> Vec<CProgram> {
     let thorough = tier == "thorough";
     match name {
@@ -314,6 +348,7 @@ pub fn by_name(name: &str, tier: &str, seed: u64) -> Vec<CProgram> {
             v
         }
         "panics" => panics(if thorough { 4 } else { 3 }),
+        "growth" => growth(),
         "random" => random(if thorough { 3000 } else { 300 }, 25, seed, false),
         "random-panics" => random(if thorough { 3000 } else { 300 }, 25, seed, true),
         _ => panic!("unknown generator {name}"),
